@@ -351,10 +351,27 @@ pub fn run_c20_case(rec: &mut Recorder, n: u64, tag: &str, plines: &[String]) {
     };
     rec.count("partitioned");
     let json = serde_json::to_string(&p).unwrap();
-    let back: Result<DfirGraph, _> = serde_json::from_str(&json);
+    let back: Result<DfirGraph, String> = match hv_common::catch(std::panic::AssertUnwindSafe(|| serde_json::from_str::<DfirGraph>(&json))) {
+        Ok(Ok(g)) => Ok(g),
+        Ok(Err(e)) => Err(e.to_string()),
+        Err(m) => Err(format!("panic {m}")),
+    };
     match back {
-        Err(e) => rec.check(false, "c20-json-deserialize", &e.to_string()),
-        Ok(mut q) => {
+        Err(e) => rec.check(false, "c20-json-deserialize", &e),
+        Ok(q) => {
+            // a corrupted loaded graph may make accessors / codegen panic: that is a round-trip failure, not a crash
+            let res = hv_common::catch(std::panic::AssertUnwindSafe(|| roundtrip_checks(rec, &p, q, &json)));
+            if let Err(m) = res {
+                rec.check(false, "c20-json-roundtrip-panic", &m.chars().take(120).collect::<String>());
+            }
+        }
+    }
+}
+
+fn roundtrip_checks(rec: &mut Recorder, p: &DfirGraph, mut q: DfirGraph, json: &str) {
+    let json = json.to_string();
+    {
+        {
             let mut d = Diagnostics::new();
             q.insert_node_op_insts_all(&mut d);
             rec.check(!d.has_error(), "c20-json-opinst-diagnostics", &format!("{:?}", d.iter().map(|x| x.message.clone()).collect::<Vec<_>>()));
